@@ -60,6 +60,7 @@ class Config:
         self.exempt_unbound: Set[Tuple[str, str]] = set()  # (func qualname, variable)
         self.exempt_ops: Set[Tuple[str, str, str]] = set()  # (func qualname, kind, normalised construct)
         self.decode_obligation = True
+        self.none_deref_fields: Set[Tuple[str, str]] = set()  # (class, field): None until set up; any attribute access needs a not-None fact
         self.guard_implies: List[Tuple[str, str, str]] = []  # (class, guard attr, attr that is not None whenever the guard is truthy)
         self.taint_call_attrs: Dict[str, Optional[str]] = {}  # external attribute calls returning received data -> kind
         self.taint_returns: Dict[str, Optional[str]] = {}  # in-repo functions whose result is received data -> kind
